@@ -899,8 +899,9 @@ fn check_ranges(l: &mut Local, rng: &mut Rng, cfg: &Cfg, idx: u64) {
                 }
             }
         }
+        _ if shape == 0 && (idx / 9) % 2 == 1 => check_mixed_range(l, rng, cfg, idx),
         _ => {
-            // both bounds naive or both zoned (a mixed pair depends on the local clock by design);
+            // both bounds naive or both zoned (mixed pairs: see check_mixed_range);
             // years >= 1500 keep clear of the ambiguity documented on parse_datetime_range
             let zoned = rng.bool();
             let mut a = gen_datetime(rng, 1500, false, false);
@@ -954,6 +955,67 @@ fn check_ranges(l: &mut Local, rng: &mut Rng, cfg: &Cfg, idx: u64) {
                     }
                     Ok(Err(e)) => viol(l, key(&format!("{}|error", entry)), format!("{:?} rejected: {}", text, e), &replay),
                     Err(p) => viol(l, key(&format!("{}|panic", entry)), format!("{:?} panicked: {}", text, p), &replay),
+                }
+            }
+        }
+    }
+}
+
+/// `A-B` where exactly one bound carries a UTC offset: the four documented resolutions of the
+/// missing offset (local clock, the known offset, failure, offsets discarded).
+fn check_mixed_range(l: &mut Local, rng: &mut Rng, cfg: &Cfg, idx: u64) {
+    use dicom_core::value::range::{parse_datetime_range_custom, FailOnAmbiguousRange, IgnoreTimeZone, ToKnownTimeZone, ToLocalTimeZone};
+    let mut a = gen_datetime(rng, 1500, false, false);
+    let mut b = gen_datetime(rng, 1500, false, false);
+    let naive_inst = |s: Stamp| (day_number(s.0 as u32, s.1, s.2) * 86400 + (s.3 * 3600 + s.4 * 60 + s.5) as i64) * 1_000_000 + s.6 as i64;
+    if naive_inst(dt_bounds(&a).0) > naive_inst(dt_bounds(&b).1) {
+        std::mem::swap(&mut a, &mut b);
+    }
+    // keep the bounds more than two days apart: every resolution of the missing offset
+    // (offsets lie within +-14 h) then yields an ordered range
+    if naive_inst(dt_bounds(&b).1) - naive_inst(dt_bounds(&a).0) < 2 * 86400 * 1_000_000 {
+        l.count("mixed_ranges_skipped_too_close", 1);
+        return;
+    }
+    let start_zoned = rng.bool();
+    let known = gen_tz(rng);
+    a.tz = if start_zoned { Some(known) } else { None };
+    b.tz = if start_zoned { None } else { Some(known) };
+    let text = format!("{}-{}", a.text(), b.text());
+    let local_mins = {
+        use chrono::Offset;
+        chrono::Local::now().offset().fix().local_minus_utc() / 60
+    };
+    let side = if start_zoned { "start-zoned" } else { "end-zoned" };
+    l.class(format!("range|DT|mixed|{}|{}|{}|tz{}", side, a.date.prec(), b.date.prec(), if known < 0 { "-" } else if known > 0 { "+" } else { "0" }));
+    let replay = json!({"seed": cfg.seed, "stream": 125, "case": idx, "text": text, "a": format!("{:?}", a), "b": format!("{:?}", b)});
+    let (sa, sb) = (dt_bounds(&a).0, dt_bounds(&b).1);
+    // (name, result, expected: None = must fail, Some(tz) = both bounds with this offset / naive)
+    let runs: Vec<(&str, Result<Result<DateTimeRange, String>, String>, Option<Option<i32>>)> = vec![
+        ("ToKnownTimeZone", guarded(|| parse_datetime_range_custom::<ToKnownTimeZone>(text.as_bytes()).map_err(|e| e.to_string())), Some(Some(known))),
+        ("IgnoreTimeZone", guarded(|| parse_datetime_range_custom::<IgnoreTimeZone>(text.as_bytes()).map_err(|e| e.to_string())), Some(None)),
+        ("FailOnAmbiguousRange", guarded(|| parse_datetime_range_custom::<FailOnAmbiguousRange>(text.as_bytes()).map_err(|e| e.to_string())), None),
+        ("ToLocalTimeZone", guarded(|| parse_datetime_range_custom::<ToLocalTimeZone>(text.as_bytes()).map_err(|e| e.to_string())), Some(Some(local_mins))),
+        ("parse_datetime_range", guarded(|| parse_datetime_range(text.as_bytes()).map_err(|e| e.to_string())), Some(Some(local_mins))),
+    ];
+    for (name, res, want) in runs {
+        l.eval();
+        let key = |k: &str| format!("DT-range|mixed|{}|{}|{}", name, side, k);
+        match (res, want) {
+            (Err(p), _) => viol(l, key("panic"), format!("{:?} panicked: {}", text, p), &replay),
+            (Ok(Err(_)), None) => {}
+            (Ok(Ok(r)), None) => viol(l, key("accepted"), format!("{:?} accepted as {:?} by the failing parser", text, r), &replay),
+            (Ok(Err(e)), Some(_)) => viol(l, key("error"), format!("{:?} rejected: {}", text, e), &replay),
+            (Ok(Ok(r)), Some(w)) => {
+                // the bound that carries an offset keeps it (unless offsets are discarded)
+                let (wa, wb) = match w {
+                    None => (None, None),
+                    Some(m) => (Some(a.tz.unwrap_or(m)), Some(b.tz.unwrap_or(m))),
+                };
+                let ok_s = r.start().map(|v| precise_matches(&v, sa, wa).is_ok()).unwrap_or(false);
+                let ok_e = r.end().map(|v| precise_matches(&v, sb, wb).is_ok()).unwrap_or(false);
+                if !ok_s || !ok_e {
+                    viol(l, key("bounds"), format!("{:?} gives {:?}, expected earliest(A)={:?} offset {:?}, latest(B)={:?} offset {:?}", text, r, sa, wa, sb, wb), &replay);
                 }
             }
         }
